@@ -2,6 +2,7 @@ package rig
 
 import (
 	"bufio"
+	"errors"
 	"crypto/tls"
 	"io"
 	"net"
@@ -85,6 +86,17 @@ func (c countingConn) Read(b []byte) (int, error) {
 	c.n.Add(int64(n))
 	return n, err
 }
+
+// CloseWrite shuts down the sending side of the underlying connection (TCP half-close), so that a
+// scripted raw peer can finish its direction of a tunnel while it keeps reading.
+func (c countingConn) CloseWrite() error {
+	if cw, ok := c.Conn.(interface{ CloseWrite() error }); ok {
+		return cw.CloseWrite()
+	}
+	return errNoHalfClose
+}
+
+var errNoHalfClose = errors.New("rig: underlying connection cannot half-close")
 
 // NewPeer starts an HTTP/1 scripted peer on 127.0.0.1:0.
 func NewPeer(name string, r Responder) (*Peer, error) {
